@@ -144,6 +144,13 @@ def run_one(case):
             at_ = (sum(case["rs"]) // 5) % 8
             W = sp.linop.Wavelet(vary_seq(shape, at_), axes=vary_seq(axes, at_), wave_name=name,
                                  level=level)
+            rt_ = sum(case["rs"]) % 5 == 3
+            if rt_:
+                # serialisation round trip (pickle / deep copy) of the operator and of its
+                # adjoint between construction and use
+                import copy
+                import pickle
+                W = pickle.loads(pickle.dumps(W)) if sum(case["rs"]) % 2 else copy.deepcopy(W)
             with structured((sum(case["rs"]) // 3) % 10 if sum(case["rs"]) % 2 else 0):
                 x0_ = crandn(rng, shape, dt if dt.kind != "i" else np.float64)
             if dt.kind == "i":
@@ -172,6 +179,8 @@ def run_one(case):
             # inverse-transform operator constructed directly and its adjoint
             WHHx = W.H.H(x)
             Wi = sp.linop.InverseWavelet(shape, axes=axes, wave_name=name, level=level)
+            if rt_:
+                Wi = copy.deepcopy(Wi) if sum(case["rs"]) % 2 else pickle.loads(pickle.dumps(Wi))
             WiHx = Wi.H(x)
             Wiy = Wi(y)
         except Exception as e:
